@@ -7,7 +7,7 @@ Conformance: TLC-simulated stimuli sequences + regression behaviours against the
 judged by the same monitor (Trace_Signalling)."""
 import shutil
 import common as C
-import sig
+import sig, httpapi
 
 PID = "C11"
 
@@ -26,9 +26,10 @@ def run(tier, replay=None):
     try:
         model(rep, w, tier)
         sig.run(rep, w, tier, PID, replay)
+        httpapi.run_table(rep, w, tier, PID, replay)     # A5: WHIP ingest and its session resource
         rep.assumptions += ["sequential driver with a quiescence barrier after every stimulus: effects are attributed to the stimulus that precedes them",
                             "rights are what the server itself told each client in joined messages (their correctness is C08's business)",
-                            "WHIP ingest (A5) is judged by C17's HTTP table, not here"]
+                            "WHIP ingest (A5): real SDP offers POSTed to the real server with every credential kind, then PATCH/DELETE on the session with the same, a wrong and no bearer (Trace_Http)"]
         return rep.finish()
     finally:
         shutil.rmtree(w, ignore_errors=True)
